@@ -241,6 +241,11 @@ pub fn c17(thorough: bool, seed: u64, _threads: usize) -> Json {
     // an explicit value equal to the default (current directory) must still count as explicit
     let mut dirs = dirs;
     dirs.push(cwd.to_string_lossy().to_string());
+    // relative values: a later occurrence must replace an earlier one, not be joined onto it
+    let _ = std::fs::create_dir_all("c17rel/inner");
+    dirs.push(".".to_string());
+    dirs.push("c17rel".to_string());
+    dirs.push("c17rel/inner".to_string());
     let s = |v: &[&str]| v.iter().map(|x| x.to_string()).collect::<Vec<_>>();
     let settings: Vec<Setting> = vec![
         Setting { spellings: &["-i", "--ip-address"], values: s(&["127.0.0.1", "0.0.0.0", "::1", "192.168.1.5"]) },
@@ -385,6 +390,27 @@ pub fn c17(thorough: bool, seed: u64, _threads: usize) -> Json {
                 }
                 check_client(&args, &mut rep, "client-subset-shuffle");
             }
+        }
+    }
+    // repeated client flags: every permutation of seeded multisets with at least one repeated setting
+    for round in 0..(if thorough { 600 } else { 120 }) {
+        let n = 1 + round % 4;
+        let mut occ: Vec<Vec<String>> = vec![];
+        for _ in 0..n {
+            let mut a = vec![];
+            let pick = rng.below(csettings.len() as u64) as usize;
+            emit(&mut rng, pick, &mut a, &csettings);
+            occ.push(a);
+        }
+        let rep_idx = csettings.iter().position(|st| st.spellings.contains(&occ[0][0].as_str())).unwrap();
+        for _ in 0..(1 + round % 2) {
+            let mut again = vec![];
+            emit(&mut rng, rep_idx, &mut again, &csettings);
+            occ.push(again);
+        }
+        for perm in permutations(occ.len()) {
+            let args: Vec<String> = perm.iter().flat_map(|&k| occ[k].clone()).collect();
+            check_client(&args, &mut rep, "client-repeated-flags-permutation");
         }
     }
     let cinvalid: Vec<Vec<String>> = vec![
